@@ -39,6 +39,11 @@ def reset_caches():
     ite.excavated_cache.clear()
     ite.burrowed_cache.clear()
     KNOWN.clear()
+    # ASTs that survive from an earlier run remember which backends failed on them (Base._errored); the shortcut that memory
+    # enables skips code that forked in the first run, so a replay would take fewer decisions than the run it replays
+    for a in list(claripy.ast.base.Base._hash_cache.values()):
+        if a._errored:
+            a._errored.clear()
 
 
 def BVV(value, size=None, **kwargs):
